@@ -115,6 +115,7 @@ class Unsupported(UnsupportedOp):
 
 SECOND_OPINION = os.environ.get("PYVC_SECOND_OPINION") == "1"
 CVC5 = "/usr/bin/cvc5"
+SECOND_OPINION_BUDGET_S = 200  # per unit
 
 
 def _pb_to_arith(text):
@@ -172,6 +173,14 @@ def second_opinion(smt2, stats, tlimit_ms=4000):
     import subprocess
 
     so = stats.second
+    if so.get("seconds", 0) > SECOND_OPINION_BUDGET_S:
+        # the unit's budget for second opinions is spent: the remaining verdicts rest on z3 alone
+        so["none"] = so.get("none", 0) + 1
+        so["skipped_over_budget"] = so.get("skipped_over_budget", 0) + 1
+        return "none"
+    import time as _time
+
+    _t0 = _time.time()
     try:
         p = subprocess.run([CVC5, "--lang=smt2", "--tlimit=%d" % tlimit_ms, "--full-saturate-quant"],
                            input="(set-logic ALL)\n" + _pb_to_arith(smt2), capture_output=True, text=True, timeout=tlimit_ms / 1000.0 + 5)
@@ -182,6 +191,7 @@ def second_opinion(smt2, stats, tlimit_ms=4000):
     if v not in ("sat", "unsat"):
         v = "none"
     so[v] = so.get(v, 0) + 1
+    so["seconds"] = so.get("seconds", 0) + (_time.time() - _t0)
     return v
 
 
